@@ -211,7 +211,7 @@ class Gen:
             return ["o2", op, a, b]
         if c < 0.72:
             a = self.expr(d - 1)
-            w = pyshape(a, self.sigs)[0]
+            w = max(0, pyshape(a, self.sigs)[0])
             lo = r.randrange(0, w + 1)
             hi = r.randrange(lo, w + 1)
             if self.malformed and r.random() < 0.4:
@@ -234,7 +234,7 @@ class Gen:
         if c < 0.92:
             return ["cat", [self.expr(d - 1) for _ in range(r.randrange(0, 4))]]
         test = self.unsigned_small(d - 1, 3) if r.random() < 0.7 else self.expr(d - 1)
-        tw = pyshape(test, self.sigs)[0]
+        tw = max(0, pyshape(test, self.sigs)[0])
         if tw > 4:
             test = ["sl", test, 0, 3]
             tw = 3
